@@ -75,6 +75,31 @@ template <class T> struct HasNormalize<T, decltype(void(std::declval<T&>().norma
 template <class V, class G> static void doNormalize(V& v, G& own, std::true_type) { v.normalize(); own.normalize(); }
 template <class V, class G> static void doNormalize(V&, G&, std::false_type) {}
 
+// ---- internal sub-views of the composite groups: asSO3() (const and mutable overload) must alias exactly the rotation coefficients ----
+template <class T, class = void> struct HasAsSO3 : std::false_type {};
+template <class T> struct HasAsSO3<T, decltype(void(std::declval<T&>().asSO3()))> : std::true_type {};
+// off = index of the first rotation coefficient in the documented layout (from the reference descriptors), len = 4 (quaternion) or 3 (rotation vector)
+template <class O> static std::string subViewCheck(O& obj, int off, int len, std::true_type) {
+  typedef typename std::remove_const<typename std::remove_reference<decltype(obj.coeffs()(0))>::type>::type Sc;
+  const O& cobj = obj;
+  auto mv = obj.asSO3(); auto cv = cobj.asSO3();
+  if ((const Sc*)mv.data() - (const Sc*)obj.data() != off) return "mutable asSO3() starts at coefficient " + std::to_string((const Sc*)mv.data() - (const Sc*)obj.data()) + ", expected " + std::to_string(off);
+  if ((const Sc*)cv.data() - (const Sc*)cobj.data() != off) return "const asSO3() starts at coefficient " + std::to_string((const Sc*)cv.data() - (const Sc*)cobj.data()) + ", expected " + std::to_string(off);
+  for (int k = 0; k < len; ++k) if (!(mv.coeffs()(k) == obj.coeffs()(off + k)) || !(cv.coeffs()(k) == obj.coeffs()(off + k))) return "asSO3() reads other coefficients than the rotation part";
+  // a write through the mutable sub-view changes exactly those coefficients
+  std::vector<Sc> before(obj.coeffs().size()); for (int k = 0; k < (int)before.size(); ++k) before[k] = obj.coeffs()(k);
+  auto rot = cv.coeffs().eval(); Sc tmp = rot(0); rot(0) = rot(len - 2); rot(len - 2) = tmp;   // a permutation keeps the norm
+  mv.coeffs() = rot;
+  for (int k = 0; k < (int)before.size(); ++k) {
+    bool inside = k >= off && k < off + len;
+    Sc want = inside ? rot(k - off) : before[k];
+    if (!(obj.coeffs()(k) == want)) return "write through mutable asSO3() changed coefficient " + std::to_string(k) + (inside ? " wrongly" : " outside the rotation part");
+  }
+  for (int k = 0; k < (int)before.size(); ++k) obj.coeffs()(k) = before[k];
+  return "";
+}
+template <class O> static std::string subViewCheck(O&, int, int, std::false_type) { return ""; }
+
 void runOnce(const Args&) {}
 
 void runCase(long long i, Prng& r, const Args& a) {
@@ -162,6 +187,18 @@ void runCase(long long i, Prng& r, const Args& a) {
     vt += s.coeffs(); checkT("operator+=(Eigen)", t + s);
     vt.setVee(s.hat()); checkT("setVee", s);
     vt[0] = s[0]; { MonT w = t; w[0] = s[0]; checkT("operator[]=", w); }
+  }
+  // ---- internal sub-views (asSO3) of SE3 / SE_2_3 / SGal3 elements and tangents, on owning objects and on views ---------------------
+  if (g.nb() == 1 && HasAsSO3<MonG>::value) {
+    const ref::Elem& e = g.el[0];
+    MonG Xo = X; MonT to = t; bx.load(X.coeffs()); bt.load(t.coeffs());
+    Eigen::Map<MonG> Vx(bx.p); Eigen::Map<MonT> Vt(bt.p);
+    std::string r1 = subViewCheck(Xo, e.rotCoef, 4, HasAsSO3<MonG>()), r2 = subViewCheck(Vx, e.rotCoef, 4, HasAsSO3<Eigen::Map<MonG>>());
+    std::string r3 = subViewCheck(to, e.rotIdx[0], 3, HasAsSO3<MonT>()), r4 = subViewCheck(Vt, e.rotIdx[0], 3, HasAsSO3<Eigen::Map<MonT>>());
+    bool ok = r1.empty() && r2.empty() && r3.empty() && r4.empty() && bx.intact() && bt.intact();
+    LOG.cell("sub-view-asSO3/" + GN(), ok ? 0 : 1);
+    if (!ok) LOG.viol("sub-view-asSO3-wrong/" + GN(), 1, caseJ(a, i).s("owning-group", r1).s("map-group", r2).s("owning-tangent", r3).s("map-tangent", r4).str());
+    bx.load(X.coeffs()); bt.load(t.coeffs());
   }
   // ---- copy / move construction preserve coefficients exactly ----------------------------------------------------------
   {
